@@ -10,6 +10,13 @@ CLAIMED = {
          'executor-level bounds/lifetime/leak checks, code-derived loop bounds and an empty exception whitelist; registry = all C06 arithmetic/cast kernels (full range), narrow instantiations, '
          'at_optional/maybe_front/maybe_back/pop_back/pop_front/find_opt, grid::at_optional (any 64-bit position), array::from_range, runtime_index, enum from_string, options is_flag/next_arg on '
          'exactly-sized symbolic strings; filesystem/iostream/RTTI functions are outside (not executable)', '3 C01'),
+ 'C03': ('bounded symbolic model checking of the real options code: leaf functions (is_flag, next_arg, pop_arg, split_command, use_flag, use_option, leftover_error, check_short_long_names) on symbolic byte strings, '
+         'options::parse on 17 parser shapes (argument, flag/switch, option, unit, unit_switch, optional, many, apply, sum, help, commands) with the argument vector chosen by the solver from the property token alphabet '
+         '(length <= 3 quick, <= 4 thorough) against a reference left-to-right consumption model with token accounting; value conversion is an uninterpreted function (all conversion functions); constructors of well-formed definitions', '3 C03'),
+ 'C04': ('bounded symbolic model checking with uninterpreted continuations (every law decided for ALL functions, not finitely many tables): functor/applicative/monad laws and the documented behaviour of optional/either/variant '
+         'combinators against a tagged-union model, call logs prove exactly-once / never-for-absent; payloads over the full range of int/short/unsigned char, containers up to length 3 (4-5 thorough)', '3 C04'),
+ 'C05': ('bounded symbolic model checking with an instrumented element type (copy/move counters, moved-from/destroyed state) through ~100 generic operations x value categories: 0 copies and <= 1 move for rvalue arguments, '
+         'lvalues untouched, no read after move; shapes (present/absent, lengths 0..3, held alternative) symbolic', '3 C05'),
  'C06': ('bounded symbolic model checking over the FULL range of every argument (bit-vector variables of the real width, no sampling): truncation_check for all 64 (dest,source) pairs of the 8 integer types, '
          'from_int for 9 enums x 4 value types, ceil_div, ceil_div_signed (full i32/i64 range and the multiplication characterisation on [-1024,1023]^2), div, mod, clamp, diff, is_power_of_2, '
          'next_power_of_2, log2, power_of_2, shifted_mask/test, interval_distance against 64/128-bit references; loops unwound to width+6 with the bound checked', '3 C06'),
